@@ -341,6 +341,13 @@ class Peer:
 
     def reconfigure(self, restart_neighbor: 'Neighbor' | None = None) -> None:
         # we want to update the route which were in the configuration file
+        if restart_neighbor and self._neighbor is not None and self.neighbor.rib:
+            # a reload is still waiting for its turn of the peer loop (two reloads in a row): apply its difference
+            # now. Overwritten, the routes it removed were never withdrawn (the next difference starts from it).
+            pending = self._neighbor
+            previous = pending.previous.routes if pending.previous else []
+            self.neighbor.rib.outgoing.replace_reload(previous, pending.routes)
+            pending.previous = None
         self._neighbor = restart_neighbor
         # Update self.neighbor immediately so API processes see the new configuration
         # during RELOAD (SIGUSR1), not just during connection reset
